@@ -198,13 +198,17 @@ func (c *Ctx) writeEvidence() {
 	}
 	ev.Coverage.TrustedBase = append([]string{"TLC 2 (tla2tools 1.8.0) and the TLA+ CommunityModules",
 		"Go projection functions of the harness (public API calls only)"}, ev.Coverage.TrustedBase...)
-	os.MkdirAll(filepath.Join(verifRoot, "evidence"), 0o755)
+	evDir := filepath.Join(verifRoot, "evidence")
+	if d := os.Getenv("VERIF_EVIDENCE_DIR"); d != "" {
+		evDir = d // runs against deliberately broken trees (tools/try_seed.sh) must not touch the registered evidence
+	}
+	os.MkdirAll(evDir, 0o755)
 	b, _ := json.MarshalIndent(ev, "", " ")
 	name := c.Prop + ".json"
 	if os.Getenv("VERIF_PHASE") != "" {
 		name = c.Prop + ".partial.json" // developer run of a subset of the phases: never the registered evidence
 	}
-	if err := os.WriteFile(filepath.Join(verifRoot, "evidence", name), b, 0o644); err != nil {
+	if err := os.WriteFile(filepath.Join(evDir, name), b, 0o644); err != nil {
 		infraFail("write evidence: %v", err)
 	}
 }
